@@ -10,6 +10,7 @@ import AgeModel.Extracted.Consts
 import Proofs.GoTieCodec
 import Proofs.GoTiePluginCodec
 import Proofs.GoTieKeys
+import Props.C09
 namespace AgeModel
 namespace Tie.C09
 open Bech32
@@ -124,6 +125,18 @@ theorem parseX25519Identity_tie (X : Bytes → Bytes → Go.M (Bytes × Option G
 theorem identityString_tie (k pub : Bytes) :
     Extracted.age_X25519Identity_String ⟨k, pub⟩ = .ok (Keys.identityString k) :=
   GoTie.identityString_tie k pub
+
+/-! ### The round trip, stated about the CODE
+
+The string ties composed with `Props.C09.x25519_recipient_roundtrip`: for EVERY 32-byte key, what the translated
+`(*X25519Recipient).String` prints is parsed by the translated `ParseX25519Recipient` back to that key. -/
+
+theorem code_recipient_roundtrip (k : Bytes) (hk : k.length = 32) :
+    ∃ s, Extracted.age_X25519Recipient_String ⟨k⟩ = .ok s ∧ Extracted.age_ParseX25519Recipient s = .ok (⟨k⟩, none) := by
+  refine ⟨Keys.recipientString k, recipientString_tie k, ?_⟩
+  obtain ⟨res, hrun, hres⟩ := parseX25519Recipient_tie (Keys.recipientString k)
+  rw [Props.C09.x25519_recipient_roundtrip k hk] at hres
+  rw [hrun, hres]
 
 end Tie.C09
 end AgeModel
